@@ -31,6 +31,7 @@ pub open spec fn size_known(s: usize) -> bool { s == 1 || s == 2 || s == 4 || s 
 """
 
 PQ = "syn::parse_quote! { %s }"
+PRIM = {"int": "ty_int({signed}, {bytes})", "float": "ty_float({bytes})", "bool": "ty_bool()"}
 
 UNIT = {
     "name": "prim_types",
@@ -42,18 +43,18 @@ UNIT = {
         {"kind": "struct", "file": LY, "name": "Layout", "prefix": "#[derive(Clone, Copy, PartialEq, Eq)]"},
         {"kind": "raw", "label": "prim_spec", "text": SPEC},
         {"kind": "fn", "file": LY, "name": "known_type_for_size", "impl": r"^impl Layout$", "impl_header": "impl Layout", "impl_name": "Layout", "ret": "r",
-         "subst": [("Option<syn::Type>", "Option<Tok>", 1, "R4")] + [(PQ % n, "ty_int(false, %d)" % b, 1, "R4") for n, b in (("u128", 16), ("u64", 8), ("u32", 4), ("u16", 2), ("u8", 1))],
+         "prim_tokens": PRIM,
+         "subst": [("Option<syn::Type>", "Option<Tok>", 1, "R4")],
          "ensures": ["r.is_some() <==> size_known(size)",
                      "r.is_some() ==> ty_size(r.unwrap()) == size && ty_align(r.unwrap()) == size && ty_signed(r.unwrap()) == Some(false) && ty_cname(r.unwrap()).is_none()"]},
         {"kind": "fn", "file": HP, "name": "integer_type", "ret": "r",
          "subst": [("Option<syn::Type>", "Option<Tok>", 1, "R4")],
          "ensures": ["r.is_some() <==> size_known(layout.size)", "r.is_some() ==> ty_size(r.unwrap()) == layout.size"]},
         {"kind": "fn", "file": HP, "name": "int_kind_rust_type", "ret": "r",
-         "subst": [("syn::Type", "Tok", 1, "R4"), (PQ % "bool", "ty_bool()", 1, "R4"), (PQ % "bindgen_cchar16_t", 'ty_named("bindgen_cchar16_t")', 1, "R4"),
-                   ('syn::parse_str(name).expect("Invalid integer type.")', "ty_custom(name)", 1, "R4")]
-                  + [(PQ % n, "ty_int(%s, %d)" % ("true" if n[0] == "i" else "false", b), 1, "R4")
-                     for n, b in (("i8", 1), ("u8", 1), ("i16", 2), ("u16", 2), ("i32", 4), ("u32", 4), ("i64", 8), ("u64", 8), ("u128", 16), ("i128", 16))]
-                  + [(PQ % "[u64; 2]", "ty_u64x2()", 2, "R4")],
+         "prim_tokens": PRIM,
+         "subst": [("syn::Type", "Tok", 1, "R4"), (PQ % "bindgen_cchar16_t", 'ty_named("bindgen_cchar16_t")', 1, "R4"),
+                   ('syn::parse_str(name).expect("Invalid integer type.")', "ty_custom(name)", 1, "R4"),
+                   (PQ % "[u64; 2]", "ty_u64x2()", 2, "R4")],
          "requires": ["ik is WChar ==> layout.is_some() && size_known(layout.unwrap().size)"],
          "ensures": [
              # "same width and signedness"
@@ -68,10 +69,10 @@ UNIT = {
         {"kind": "fn", "file": HP, "name": "float_kind_rust_type", "ret": "r", "r2_skip": True,
          "subst": [("syn::Type", "Tok", 1, "R4"), (PQ % "root::__BindgenFloat16", 'ty_named("root::__BindgenFloat16")', 1, "R4"),
                    (PQ % "__BindgenFloat16", 'ty_named("__BindgenFloat16")', 1, "R4"),
-                   (PQ % "f32", "ty_float(4)", 2, "R4"), (PQ % "f64", "ty_float(8)", 4, "R4"),
-                   (PQ % "u128", "ty_int(false, 16)", 1, "R4"), (PQ % "[u64; 2]", "ty_u64x2()", 1, "R4"),
+                   (PQ % "[u64; 2]", "ty_u64x2()", 1, "R4"),
                    ("super::integer_type(", "integer_type(", 1, "R5"),
                    ('debug_assert!( false, "How didn\'t we know the layout for a primitive type?" );', "debug_assert_stub(false);", 1, "R15 debug_assert!(false)")],
+         "prim_tokens": PRIM,
          "requires": ["fk is LongDouble ==> layout.is_some()"],
          "ensures": [
              "fk is Float && ctx.spec_options().convert_floats ==> ty_is_float(r) && ty_size(r) == 4",
